@@ -494,9 +494,14 @@ func c09CrossCheckExtraction(ctx *Ctx, res *Result, cases []c09Case) {
 		res.Broken = err.Error()
 		return
 	}
-	cmd := exec.Command("timeout", "300", "coqc", "-Q", filepath.Join(ctx.Verif, "coq"), "PV", file)
+	// generous limit: other builders load the machine; a coqc killed by the limit is counted, not judged
+	cmd := exec.Command("timeout", "1200", "coqc", "-Q", filepath.Join(ctx.Verif, "coq"), "PV", file)
 	cmd.Dir = ctx.Work
 	out, err := cmd.CombinedOutput()
+	if ee, ok := err.(*exec.ExitError); ok && ee.ExitCode() == 124 {
+		res.Count("vm_compute_cross_check_timed_out", 1)
+		return
+	}
 	if err != nil {
 		msg := string(out)
 		if len(msg) > 600 {
